@@ -3,6 +3,7 @@ package rules
 import (
 	"fmt"
 	"os"
+	"regexp"
 	"sort"
 	"strings"
 
@@ -51,10 +52,39 @@ func c21Deciding(r *ssa.Return) []string {
 }
 
 func c21AtomText(a eng.Atom) string {
-	if a.Pos {
-		return a.Expr
+	t := a.Expr
+	if !a.Pos {
+		t = "¬" + t
 	}
-	return "¬" + a.Expr
+	return canonContains(t)
+}
+
+// canonContains maps the equivalent spellings of «s contains the byte c» onto
+// the IndexByte form the tables were frozen with.
+var (
+	reContainsStr  = regexp.MustCompile(`^(¬?)strings\.Contains\((.*), "(.)"\)$`)
+	reContainsRune = regexp.MustCompile(`^(¬?)strings\.Contains(?:Rune)?\((.*), (\d+)(?::\w+)?\)$`)
+	reIndexCmp     = regexp.MustCompile(`^(¬?)\(strings\.Index(?:Byte|Rune)?\((.*), (\d+)(?::\w+)?\) (>= 0|< 0|!= -1|> -1)\)$`)
+)
+
+func canonContains(t string) string {
+	flip := func(neg string, contains bool, s, c string) string {
+		// «contains» ≡ ¬(IndexByte == -1)
+		if (neg == "") == contains {
+			return "¬(strings.IndexByte(" + s + ", " + c + ") == -1)"
+		}
+		return "(strings.IndexByte(" + s + ", " + c + ") == -1)"
+	}
+	if m := reContainsStr.FindStringSubmatch(t); m != nil {
+		return flip(m[1], true, m[2], fmt.Sprint(int(m[3][0])))
+	}
+	if m := reContainsRune.FindStringSubmatch(t); m != nil {
+		return flip(m[1], true, m[2], m[3])
+	}
+	if m := reIndexCmp.FindStringSubmatch(t); m != nil {
+		return flip(m[1], m[4] != "< 0", m[2], m[3])
+	}
+	return t
 }
 
 func c21Validators(c *eng.Ctx) {
@@ -62,9 +92,19 @@ func c21Validators(c *eng.Ctx) {
 		"ScanRequest", "ScanCompletionRequest", "ScanResponse", "StageRequest", "StageResponse", "SupplyRequest", "TransitionRequest",
 		"TransitionCompletionRequest", "TransitionResponse", "EndpointRequest"}
 	for _, tn := range named {
-		fn := c.MustFunc("R7", remotePkg, tn+".ensureValid")
+		validatorReasons(c, "R7", remotePkg, tn+".ensureValid", tn, c21ValidatorTable[tn])
+	}
+	c.Floor("R7", 15)
+}
+
+// validatorReasons compares the deciding conditions of the rejecting returns of
+// one validator with the frozen list (as a multiset, so order and the if/switch
+// spelling do not matter).
+func validatorReasons(c *eng.Ctx, rule, pkg, fnName, tn string, table []string) {
+	{
+		fn := c.MustFunc(rule, pkg, fnName)
 		if fn == nil {
-			continue
+			return
 		}
 		var found []string
 		for _, r := range eng.Returns(fn) {
@@ -75,7 +115,7 @@ func c21Validators(c *eng.Ctx) {
 			found = append(found, strings.Join(c21Deciding(r), " ∧ "))
 		}
 		sort.Strings(found)
-		want := append([]string(nil), c21ValidatorTable[tn]...)
+		want := append([]string(nil), table...)
 		sort.Strings(want)
 		ok := len(found) == len(want)
 		if ok {
@@ -119,9 +159,8 @@ func c21Validators(c *eng.Ctx) {
 			}
 			fmt.Printf("\t},\n")
 		}
-		c.Check("R7", "rejection-reasons:"+tn, fn.Pos(), ok, "the validator of "+tn+" rejects for exactly the reasons confirmed on the pinned tree (none added, none dropped)", detail)
+		c.Check(rule, "rejection-reasons:"+tn, fn.Pos(), ok, "the validator of "+tn+" rejects for exactly the reasons confirmed on the pinned tree (none added, none dropped)", detail)
 	}
-	c.Floor("R7", 15)
 }
 
 var c21Dump = os.Getenv("VERIF_C21_DUMP") != ""
